@@ -134,51 +134,101 @@ theorem mergeLabels_nil_left (b : List Int) : mergeLabels ([] : List Int) b = []
 theorem mergeLabels_nil_right (a : List Int) : mergeLabels a ([] : List Int) = [] := by
   rw [mergeLabels]; intros; simp_all
 
-/-- one fiber, both operands non-empty: the two-finger loop performs exactly the merge
-    steps of the operands and continues behind the fiber — provided the fiber ends
-    cleanly or nothing follows -/
+/-! ### Python's list order on outer points -/
+
+theorem c19_lexLt_irrefl (x : List Int) : c19_lexLt x x = false := by
+  induction x with
+  | nil => rfl
+  | cons a r ih => simp [c19_lexLt, ih]
+
+theorem c19_lexLt_nil_right (x : List Int) : c19_lexLt x [] = false := by
+  cases x <;> rfl
+
+theorem c19_lexLt_asymm : ∀ (x y : List Int), c19_lexLt x y = true → c19_lexLt y x = false := by
+  intro x
+  induction x with
+  | nil => intro y _; exact c19_lexLt_nil_right y
+  | cons a r ih =>
+    intro y h
+    cases y with
+    | nil => simp [c19_lexLt] at h
+    | cons b s =>
+      simp only [c19_lexLt] at h ⊢
+      by_cases h1 : a < b
+      · have : ¬ b < a := by omega
+        have h2 : ¬ b = a := by omega
+        simp [this, h2]
+      · by_cases h2 : a = b
+        · subst h2
+          simp only [Int.lt_irrefl, if_false, if_true] at h ⊢
+          exact ih s h
+        · simp [h1, h2] at h
+
+/-- all of `R` lies in fibers behind `pre` -/
+def Later (pre : List Int) (R : List c19_Pt) : Prop := ∀ q ∈ R, c19_lexLt pre q.dropLast = true
+
+theorem later_nil (pre : List Int) : Later pre [] := by intro q h; cases h
+
+theorem Later.tail {pre : List Int} {q : c19_Pt} {R : List c19_Pt} (h : Later pre (q :: R)) : Later pre R :=
+  fun x hx => h x (List.mem_cons_of_mem _ hx)
+
+theorem Later.head_ne {pre : List Int} {q : c19_Pt} {R : List c19_Pt} (h : Later pre (q :: R)) :
+    q.isEmpty = false ∧ c19_lexLt pre q.dropLast = true ∧ c19_lexLt q.dropLast pre = false ∧ pre ≠ q.dropLast := by
+  have h1 := h q (List.mem_cons_self ..)
+  refine ⟨?_, h1, c19_lexLt_asymm _ _ h1, ?_⟩
+  · cases q with
+    | nil => simp [c19_lexLt_nil_right] at h1
+    | cons _ _ => rfl
+  · intro he; rw [← he, c19_lexLt_irrefl] at h1; cases h1
+
+theorem Later.foreign {pre : List Int} {R : List c19_Pt} (h : Later pre R) : Foreign pre R := by
+  cases R with
+  | nil => rfl
+  | cons q r => simp [Foreign, endOf, h.head_ne.2.2.2]
+
+/-- a lone trailing row of the fiber `pre` in trace 1 is passed over -/
+theorem tfLoop_skip_right (pre : List Int) (y : Int) (R0 R1 : List c19_Pt) (h0 : Later pre R0) :
+    tfLoop R0 ((pre ++ [y]) :: R1) = tfLoop R0 R1 := by
+  cases R0 with
+  | nil => rw [tfLoop_nil_left, tfLoop_nil_left]
+  | cons q r =>
+    obtain ⟨e1, e2, e3, _⟩ := h0.head_ne
+    rw [tfLoop]
+    simp [e1, snoc_isEmpty, dropLast_snoc, e2, e3]
+
+theorem tfLoop_skip_left (pre : List Int) (x : Int) (R0 R1 : List c19_Pt) (h1 : Later pre R1) :
+    tfLoop ((pre ++ [x]) :: R0) R1 = tfLoop R0 R1 := by
+  cases R1 with
+  | nil => rw [tfLoop_nil_right, tfLoop_nil_right]
+  | cons q r =>
+    obtain ⟨e1, e2, e3, _⟩ := h1.head_ne
+    rw [tfLoop]
+    simp [e1, snoc_isEmpty, dropLast_snoc, e2, e3]
+
+/-- one fiber inside a trace: the two-finger loop performs exactly the merge steps of the
+    operands and continues behind the fiber, whatever the operands are -/
 theorem tfLoop_fiber (pre : List Int) (a b : List Int) (R0 R1 : List c19_Pt)
-    (h0 : Foreign pre R0) (h1 : Foreign pre R1) (ha : a ≠ []) (hb : b ≠ [])
-    (hc : cleanEnd a b = true ∨ (R0 = [] ∧ R1 = [])) :
+    (h0 : Later pre R0) (h1 : Later pre R1) :
     tfLoop (P pre (andPts a b).1 ++ R0) (P pre (andPts a b).2 ++ R1)
       = (mergeLabels a b).length + tfLoop R0 R1 := by
   fun_induction andPts a b with
-  | case1 => exact absurd rfl ha
-  | case2 a ra => exact absurd rfl hb
-  | case3 b rb => exact absurd rfl ha
+  | case1 => simp [mergeLabels_nil_left]
+  | case2 a ra =>
+    simp only [P_cons, P_nil, List.cons_append, List.nil_append, mergeLabels_nil_right, List.length_nil, Nat.zero_add]
+    exact tfLoop_skip_left pre a R0 R1 h1
+  | case3 b rb =>
+    simp only [P_cons, P_nil, List.cons_append, List.nil_append, mergeLabels_nil_left, List.length_nil, Nat.zero_add]
+    exact tfLoop_skip_right pre b R0 R1 h0
   | case4 ta x tb ih =>
     have hstep : ∀ r0 r1 : List c19_Pt, tfLoop ((pre ++ [x]) :: r0) ((pre ++ [x]) :: r1) = 1 + tfLoop r0 r1 := by
-      intro r0 r1; rw [tfLoop]; simp [snoc_isEmpty]
+      intro r0 r1; rw [tfLoop]; simp [snoc_isEmpty, dropLast_snoc, c19_lexLt_irrefl]
     have hml : mergeLabels (x :: ta) (x :: tb) = Lab.M :: mergeLabels ta tb := by
       rw [mergeLabels]; simp
-    have hce : cleanEnd (x :: ta) (x :: tb) = ((ta.isEmpty == tb.isEmpty) && cleanEnd ta tb) := by
-      rw [cleanEnd]; simp
     simp only [P_cons, List.cons_append, hstep, hml, List.length_cons]
-    cases ta with
-    | nil =>
-      cases tb with
-      | nil => simp [andPts, mergeLabels_nil_left]
-      | cons y tb' =>
-        rw [hce] at hc
-        simp at hc
-        obtain ⟨rfl, rfl⟩ := hc
-        simp [andPts_nil_left, tfLoop_nil_left, mergeLabels_nil_left]
-    | cons y ta' =>
-      cases tb with
-      | nil =>
-        rw [hce] at hc
-        simp at hc
-        obtain ⟨rfl, rfl⟩ := hc
-        simp [andPts_nil_right, tfLoop_nil_right, mergeLabels_nil_right]
-      | cons z tb' =>
-        rw [hce] at hc
-        simp only [List.isEmpty_cons, beq_self_eq_true, Bool.true_and] at hc
-        rw [ih (by simp) (by simp) hc]; omega
+    rw [ih]; omega
   | case5 a ra b rb hne hlt ih =>
     have hml : mergeLabels (a :: ra) (b :: rb) = Lab.L :: mergeLabels ra (b :: rb) := by
       rw [mergeLabels]; simp [hne, hlt]
-    have hce : cleanEnd (a :: ra) (b :: rb) = cleanEnd ra (b :: rb) := by
-      rw [cleanEnd]; simp [hne, hlt]
     obtain ⟨t1, ht1⟩ := andPts_snd_cons ra b rb
     simp only [P_cons, List.cons_append, hml, List.length_cons]
     cases ra with
@@ -187,22 +237,20 @@ theorem tfLoop_fiber (pre : List Int) (a b : List Int) (R0 R1 : List c19_Pt)
       rw [this]
       simp only [P_nil, P_cons, List.nil_append, List.cons_append]
       rw [tfLoop]
-      have h0' : endOf pre R0 = true := h0
-      simp [snoc_isEmpty, snoc_inj, hne, lexLt_snoc, hlt, dropLast_snoc, h0', mergeLabels_nil_left]
+      have h0' : endOf pre R0 = true := h0.foreign
+      simp [snoc_isEmpty, snoc_inj, hne, lexLt_snoc, hlt, dropLast_snoc, h0', mergeLabels_nil_left, c19_lexLt_irrefl]
     | cons y ra' =>
       obtain ⟨t0, ht0⟩ := andPts_fst_cons y ra' (b :: rb)
-      have hih := ih (by simp) (by simp) (by rw [← hce]; exact hc)
+      have hih := ih
       rw [ht1] at hih ⊢
       rw [ht0] at hih ⊢
       simp only [P_cons, List.cons_append] at hih ⊢
       rw [tfLoop]
-      simp [snoc_isEmpty, snoc_inj, hne, lexLt_snoc, hlt, dropLast_snoc, endOf]
+      simp [snoc_isEmpty, snoc_inj, hne, lexLt_snoc, hlt, dropLast_snoc, endOf, c19_lexLt_irrefl]
       rw [hih]; omega
   | case6 a ra b rb hne hnlt ih =>
     have hml : mergeLabels (a :: ra) (b :: rb) = Lab.R :: mergeLabels (a :: ra) rb := by
       rw [mergeLabels]; simp [hne, hnlt]
-    have hce : cleanEnd (a :: ra) (b :: rb) = cleanEnd (a :: ra) rb := by
-      rw [cleanEnd]; simp [hne, hnlt]
     obtain ⟨t0, ht0⟩ := andPts_fst_cons a ra rb
     simp only [P_cons, List.cons_append, hml, List.length_cons]
     cases rb with
@@ -211,16 +259,16 @@ theorem tfLoop_fiber (pre : List Int) (a b : List Int) (R0 R1 : List c19_Pt)
       rw [this]
       simp only [P_nil, P_cons, List.nil_append, List.cons_append]
       rw [tfLoop]
-      have h1' : endOf pre R1 = true := h1
-      simp [snoc_isEmpty, snoc_inj, hne, lexLt_snoc, hnlt, dropLast_snoc, h1', mergeLabels_nil_right]
+      have h1' : endOf pre R1 = true := h1.foreign
+      simp [snoc_isEmpty, snoc_inj, hne, lexLt_snoc, hnlt, dropLast_snoc, h1', mergeLabels_nil_right, c19_lexLt_irrefl]
     | cons y rb' =>
       obtain ⟨t1, ht1⟩ := andPts_snd_cons (a :: ra) y rb'
-      have hih := ih (by simp) (by simp) (by rw [← hce]; exact hc)
+      have hih := ih
       rw [ht1] at hih ⊢
       rw [ht0] at hih ⊢
       simp only [P_cons, List.cons_append] at hih ⊢
       rw [tfLoop]
-      simp [snoc_isEmpty, snoc_inj, hne, lexLt_snoc, hnlt, dropLast_snoc, endOf]
+      simp [snoc_isEmpty, snoc_inj, hne, lexLt_snoc, hnlt, dropLast_snoc, endOf, c19_lexLt_irrefl]
       rw [hih]; omega
 
 end Ft
@@ -241,48 +289,48 @@ theorem saLoop_nil_left (c : Option Nat) (l : List c19_Pt) : saLoop c [] l = 0 :
 theorem saLoop_nil_right (c : Option Nat) (l : List c19_Pt) : saLoop c l [] = 0 := by
   rw [saLoop]; intros; simp_all
 
+theorem saLoop_skip_right (pre : List Int) (y : Int) (R0 R1 : List c19_Pt) (c : Option Nat)
+    (h0 : Later pre R0) : saLoop c R0 ((pre ++ [y]) :: R1) = saLoop none R0 R1 := by
+  cases R0 with
+  | nil => rw [saLoop_nil_left, saLoop_nil_left]
+  | cons q r =>
+    obtain ⟨e1, e2, e3, _⟩ := h0.head_ne
+    rw [saLoop]
+    simp [e1, snoc_isEmpty, dropLast_snoc, e2, e3]
+
+theorem saLoop_skip_left (pre : List Int) (x : Int) (R0 R1 : List c19_Pt) (c : Option Nat)
+    (h1 : Later pre R1) : saLoop c ((pre ++ [x]) :: R0) R1 = saLoop none R0 R1 := by
+  cases R1 with
+  | nil => rw [saLoop_nil_right, saLoop_nil_right]
+  | cons q r =>
+    obtain ⟨e1, e2, e3, _⟩ := h1.head_ne
+    rw [saLoop]
+    simp [e1, snoc_isEmpty, dropLast_snoc, e2, e3]
+
 theorem saLoop_fiber (pre : List Int) (a b : List Int) (R0 R1 : List c19_Pt) (curr : Option Nat)
-    (h0 : Foreign pre R0) (h1 : Foreign pre R1) (ha : a ≠ []) (hb : b ≠ [])
-    (hc : cleanEnd a b = true ∨ (R0 = [] ∧ R1 = [])) :
+    (h0 : Later pre R0) (h1 : Later pre R1) (hcur : a = [] → b = [] → curr = none) :
     saLoop curr (P pre (andPts a b).1 ++ R0) (P pre (andPts a b).2 ++ R1)
       = runsFrom curr (mergeLabels a b) + saLoop none R0 R1 := by
   fun_induction andPts a b generalizing curr with
-  | case1 => exact absurd rfl ha
-  | case2 a ra => exact absurd rfl hb
-  | case3 b rb => exact absurd rfl ha
+  | case1 =>
+    rw [hcur rfl rfl]
+    simp [mergeLabels_nil_left, runsFrom]
+  | case2 a ra =>
+    simp only [P_cons, P_nil, List.cons_append, List.nil_append, mergeLabels_nil_right, runsFrom, Nat.zero_add]
+    exact saLoop_skip_left pre a R0 R1 curr h1
+  | case3 b rb =>
+    simp only [P_cons, P_nil, List.cons_append, List.nil_append, mergeLabels_nil_left, runsFrom, Nat.zero_add]
+    exact saLoop_skip_right pre b R0 R1 curr h0
   | case4 ta x tb ih =>
     have hstep : ∀ r0 r1 : List c19_Pt, saLoop curr ((pre ++ [x]) :: r0) ((pre ++ [x]) :: r1) = 1 + saLoop none r0 r1 := by
-      intro r0 r1; rw [saLoop]; simp [snoc_isEmpty]
+      intro r0 r1; rw [saLoop]; simp [snoc_isEmpty, dropLast_snoc, c19_lexLt_irrefl]
     have hml : mergeLabels (x :: ta) (x :: tb) = Lab.M :: mergeLabels ta tb := by
       rw [mergeLabels]; simp
-    have hce : cleanEnd (x :: ta) (x :: tb) = ((ta.isEmpty == tb.isEmpty) && cleanEnd ta tb) := by
-      rw [cleanEnd]; simp
     simp only [P_cons, List.cons_append, hstep, hml, runsFrom]
-    cases ta with
-    | nil =>
-      cases tb with
-      | nil => simp [andPts, mergeLabels_nil_left, runsFrom]
-      | cons y tb' =>
-        rw [hce] at hc
-        simp at hc
-        obtain ⟨rfl, rfl⟩ := hc
-        simp [andPts_nil_left, saLoop_nil_left, mergeLabels_nil_left, runsFrom]
-    | cons y ta' =>
-      cases tb with
-      | nil =>
-        rw [hce] at hc
-        simp at hc
-        obtain ⟨rfl, rfl⟩ := hc
-        simp [andPts_nil_right, saLoop_nil_right, mergeLabels_nil_right, runsFrom]
-      | cons z tb' =>
-        rw [hce] at hc
-        simp only [List.isEmpty_cons, beq_self_eq_true, Bool.true_and] at hc
-        rw [ih none (by simp) (by simp) hc]; omega
+    rw [ih none (fun _ _ => rfl)]; omega
   | case5 a ra b rb hne hlt ih =>
     have hml : mergeLabels (a :: ra) (b :: rb) = Lab.L :: mergeLabels ra (b :: rb) := by
       rw [mergeLabels]; simp [hne, hlt]
-    have hce : cleanEnd (a :: ra) (b :: rb) = cleanEnd ra (b :: rb) := by
-      rw [cleanEnd]; simp [hne, hlt]
     obtain ⟨t1, ht1⟩ := andPts_snd_cons ra b rb
     simp only [P_cons, List.cons_append, hml, runsFrom]
     cases ra with
@@ -291,23 +339,21 @@ theorem saLoop_fiber (pre : List Int) (a b : List Int) (R0 R1 : List c19_Pt) (cu
       rw [this]
       simp only [P_nil, P_cons, List.nil_append, List.cons_append]
       rw [saLoop]
-      have h0' : endOf pre R0 = true := h0
-      have hf := fiberOf_foreign h0
-      simp [snoc_isEmpty, snoc_inj, hne, lexLt_snoc, hlt, dropLast_snoc, h0', hf, mergeLabels_nil_left, runsFrom]
+      have h0' : endOf pre R0 = true := h0.foreign
+      have hf := fiberOf_foreign h0.foreign
+      simp [snoc_isEmpty, snoc_inj, hne, lexLt_snoc, hlt, dropLast_snoc, h0', hf, mergeLabels_nil_left, runsFrom, c19_lexLt_irrefl]
     | cons y ra' =>
       obtain ⟨t0, ht0⟩ := andPts_fst_cons y ra' (b :: rb)
-      have hih := ih (some 0) (by simp) (by simp) (by rw [← hce]; exact hc)
+      have hih := ih (some 0) (by intro h; cases h)
       rw [ht1] at hih ⊢
       rw [ht0] at hih ⊢
       simp only [P_cons, List.cons_append] at hih ⊢
       rw [saLoop]
-      simp [snoc_isEmpty, snoc_inj, hne, lexLt_snoc, hlt, dropLast_snoc, endOf, fiberOf]
+      simp [snoc_isEmpty, snoc_inj, hne, lexLt_snoc, hlt, dropLast_snoc, endOf, fiberOf, c19_lexLt_irrefl]
       rw [hih]; omega
   | case6 a ra b rb hne hnlt ih =>
     have hml : mergeLabels (a :: ra) (b :: rb) = Lab.R :: mergeLabels (a :: ra) rb := by
       rw [mergeLabels]; simp [hne, hnlt]
-    have hce : cleanEnd (a :: ra) (b :: rb) = cleanEnd (a :: ra) rb := by
-      rw [cleanEnd]; simp [hne, hnlt]
     obtain ⟨t0, ht0⟩ := andPts_fst_cons a ra rb
     simp only [P_cons, List.cons_append, hml, runsFrom]
     cases rb with
@@ -316,17 +362,17 @@ theorem saLoop_fiber (pre : List Int) (a b : List Int) (R0 R1 : List c19_Pt) (cu
       rw [this]
       simp only [P_nil, P_cons, List.nil_append, List.cons_append]
       rw [saLoop]
-      have h1' : endOf pre R1 = true := h1
-      have hf := fiberOf_foreign h0
-      simp [snoc_isEmpty, snoc_inj, hne, lexLt_snoc, hnlt, dropLast_snoc, h1', hf, mergeLabels_nil_right, runsFrom]
+      have h1' : endOf pre R1 = true := h1.foreign
+      have hf := fiberOf_foreign h0.foreign
+      simp [snoc_isEmpty, snoc_inj, hne, lexLt_snoc, hnlt, dropLast_snoc, h1', hf, mergeLabels_nil_right, runsFrom, c19_lexLt_irrefl]
     | cons y rb' =>
       obtain ⟨t1, ht1⟩ := andPts_snd_cons (a :: ra) y rb'
-      have hih := ih (some 1) (by simp) (by simp) (by rw [← hce]; exact hc)
+      have hih := ih (some 1) (by intro _ h; cases h)
       rw [ht1] at hih ⊢
       rw [ht0] at hih ⊢
       simp only [P_cons, List.cons_append] at hih ⊢
       rw [saLoop]
-      simp [snoc_isEmpty, snoc_inj, hne, lexLt_snoc, hnlt, dropLast_snoc, endOf, fiberOf]
+      simp [snoc_isEmpty, snoc_inj, hne, lexLt_snoc, hnlt, dropLast_snoc, endOf, fiberOf, c19_lexLt_irrefl]
       rw [hih]; omega
 
 end Ft
@@ -385,28 +431,28 @@ theorem groupPts_cons (f : FiberIn) (g : List FiberIn) :
     groupPts (f :: g) = (f.pts.1 ++ (groupPts g).1, f.pts.2 ++ (groupPts g).2) := by
   simp [groupPts]
 
-theorem foreign_P_append (pre pre' : List Int) (cs : List Int) (R : List c19_Pt)
-    (hne : pre ≠ pre') (hR : Foreign pre R) : Foreign pre (P pre' cs ++ R) := by
-  cases cs with
-  | nil => simpa using hR
-  | cons c cs => simp [Foreign, endOf, P, hne]
+theorem later_P_append (pre pre' : List Int) (cs : List Int) (R : List c19_Pt)
+    (hlt : c19_lexLt pre pre' = true) (hR : Later pre R) : Later pre (P pre' cs ++ R) := by
+  intro q hq
+  rcases List.mem_append.1 hq with hq | hq
+  · simp only [P, List.mem_map] at hq
+    obtain ⟨c, _, rfl⟩ := hq
+    rw [dropLast_snoc]; exact hlt
+  · exact hR q hq
 
-theorem foreign_group (pre : List Int) (g : List FiberIn) (h : ∀ f ∈ g, pre ≠ f.pre) :
-    Foreign pre (groupPts g).1 ∧ Foreign pre (groupPts g).2 := by
+theorem later_group (pre : List Int) (g : List FiberIn) (h : ∀ f ∈ g, c19_lexLt pre f.pre = true) :
+    Later pre (groupPts g).1 ∧ Later pre (groupPts g).2 := by
   induction g with
-  | nil => exact ⟨rfl, rfl⟩
+  | nil => exact ⟨later_nil _, later_nil _⟩
   | cons f g ih =>
     have hf := h f (List.mem_cons_self ..)
     have ih' := ih (fun x hx => h x (List.mem_cons_of_mem _ hx))
     rw [groupPts_cons]
-    exact ⟨foreign_P_append _ _ _ _ hf ih'.1, foreign_P_append _ _ _ _ hf ih'.2⟩
+    exact ⟨later_P_append _ _ _ _ hf ih'.1, later_P_append _ _ _ _ hf ih'.2⟩
 
-theorem distinctPre_cons (f : FiberIn) (g : List FiberIn) :
-    distinctPre (f :: g) = true ↔ (∀ h ∈ g, f.pre ≠ h.pre) ∧ distinctPre g = true := by
-  simp [distinctPre, List.all_eq_true]
-
-theorem groupClean_cons_cons (f f' : FiberIn) (g : List FiberIn) :
-    groupClean (f :: f' :: g) = (clean f.a f.b && groupClean (f' :: g)) := rfl
+theorem ascPre_cons (f : FiberIn) (g : List FiberIn) :
+    ascPre (f :: g) = true ↔ (∀ h ∈ g, c19_lexLt f.pre h.pre = true) ∧ ascPre g = true := by
+  simp [ascPre, List.all_eq_true]
 
 theorem tfSpecAll_cons (f : FiberIn) (g : List FiberIn) :
     tfSpecAll (f :: g) = tfSpec f.a f.b + tfSpecAll g := by simp [tfSpecAll]
@@ -414,90 +460,28 @@ theorem tfSpecAll_cons (f : FiberIn) (g : List FiberIn) :
 theorem saSpecAll_cons (f : FiberIn) (g : List FiberIn) :
     saSpecAll (f :: g) = saSpec f.a f.b + saSpecAll g := by simp [saSpecAll]
 
-/-- what the hypotheses of a group give for its first fiber -/
-theorem group_head_cases (f : FiberIn) (g : List FiberIn) (hc : groupClean (f :: g) = true) :
-    (f.a = [] ∧ f.b = []) ∨
-    ((f.a = [] ∨ f.b = []) ∧ g = []) ∨
-    (f.a ≠ [] ∧ f.b ≠ [] ∧ (cleanEnd f.a f.b = true ∨ g = [])) := by
-  cases g with
-  | nil =>
-    by_cases ha : f.a = []
-    · by_cases hb : f.b = []
-      · exact Or.inl ⟨ha, hb⟩
-      · exact Or.inr (Or.inl ⟨Or.inl ha, rfl⟩)
-    · by_cases hb : f.b = []
-      · exact Or.inr (Or.inl ⟨Or.inr hb, rfl⟩)
-      · exact Or.inr (Or.inr ⟨ha, hb, Or.inr rfl⟩)
-  | cons f' g' =>
-    rw [groupClean_cons_cons] at hc
-    simp only [Bool.and_eq_true, clean] at hc
-    obtain ⟨⟨he, hce⟩, _⟩ := hc
-    by_cases ha : f.a = []
-    · have hb : f.b = [] := by
-        rw [ha] at he; simpa using he
-      exact Or.inl ⟨ha, hb⟩
-    · have hb : f.b ≠ [] := by
-        intro hb; rw [hb] at he
-        have : f.a.isEmpty = true := by simpa using he
-        exact ha (List.isEmpty_iff.1 this)
-      exact Or.inr (Or.inr ⟨ha, hb, Or.inl hce⟩)
-
-theorem groupClean_tail (f : FiberIn) (g : List FiberIn) (hc : groupClean (f :: g) = true) :
-    groupClean g = true := by
-  cases g with
-  | nil => rfl
-  | cons f' g' =>
-    rw [groupClean_cons_cons] at hc
-    simp only [Bool.and_eq_true] at hc
-    exact hc.2
-
-theorem groupPts_nil_of (g : List FiberIn) (h : g = []) : groupPts g = ([], []) := by
-  subst h; rfl
-
 /-- a whole group in one call: the two-finger loop counts the merge steps of every fiber -/
-theorem tfLoop_group (g : List FiberIn) (hd : distinctPre g = true) (hc : groupClean g = true) :
+theorem tfLoop_group (g : List FiberIn) (hd : ascPre g = true) :
     tfLoop (groupPts g).1 (groupPts g).2 = tfSpecAll g := by
   induction g with
   | nil => simp [groupPts, tfLoop_nil_left, tfSpecAll]
   | cons f g ih =>
-    obtain ⟨hdf, hdg⟩ := (distinctPre_cons f g).1 hd
-    have ih' := ih hdg (groupClean_tail f g hc)
-    obtain ⟨hF0, hF1⟩ := foreign_group f.pre g hdf
+    obtain ⟨hdf, hdg⟩ := (ascPre_cons f g).1 hd
+    obtain ⟨hF0, hF1⟩ := later_group f.pre g hdf
     rw [groupPts_cons, tfSpecAll_cons]
-    rcases group_head_cases f g hc with ⟨ha, hb⟩ | ⟨hab, hg⟩ | ⟨ha, hb, hce⟩
-    · simp [FiberIn.pts, ha, hb, andPts, tfSpec, mergeLabels_nil_left, ih']
-    · subst hg
-      rcases hab with ha | hb
-      · simp [FiberIn.pts, ha, andPts_nil_left, tfLoop_nil_left, tfSpec, mergeLabels_nil_left, groupPts, tfSpecAll]
-      · simp [FiberIn.pts, hb, andPts_nil_right, tfLoop_nil_right, tfSpec, mergeLabels_nil_right, groupPts, tfSpecAll]
-    · have hce' : cleanEnd f.a f.b = true ∨ ((groupPts g).1 = [] ∧ (groupPts g).2 = []) := by
-        rcases hce with h | h
-        · exact Or.inl h
-        · right; rw [groupPts_nil_of g h]; exact ⟨rfl, rfl⟩
-      simp only [FiberIn.pts]
-      rw [tfLoop_fiber f.pre f.a f.b _ _ hF0 hF1 ha hb hce', ih', tfSpec]
+    simp only [FiberIn.pts]
+    rw [tfLoop_fiber f.pre f.a f.b _ _ hF0 hF1, ih hdg, tfSpec]
 
-theorem saLoop_group (g : List FiberIn) (hd : distinctPre g = true) (hc : groupClean g = true) :
+theorem saLoop_group (g : List FiberIn) (hd : ascPre g = true) :
     saLoop none (groupPts g).1 (groupPts g).2 = saSpecAll g := by
   induction g with
   | nil => simp [groupPts, saLoop_nil_left, saSpecAll]
   | cons f g ih =>
-    obtain ⟨hdf, hdg⟩ := (distinctPre_cons f g).1 hd
-    have ih' := ih hdg (groupClean_tail f g hc)
-    obtain ⟨hF0, hF1⟩ := foreign_group f.pre g hdf
+    obtain ⟨hdf, hdg⟩ := (ascPre_cons f g).1 hd
+    obtain ⟨hF0, hF1⟩ := later_group f.pre g hdf
     rw [groupPts_cons, saSpecAll_cons]
-    rcases group_head_cases f g hc with ⟨ha, hb⟩ | ⟨hab, hg⟩ | ⟨ha, hb, hce⟩
-    · simp [FiberIn.pts, ha, hb, andPts, saSpec, mergeLabels_nil_left, ih', sameSideRuns]
-    · subst hg
-      rcases hab with ha | hb
-      · simp [FiberIn.pts, ha, andPts_nil_left, saLoop_nil_left, saSpec, mergeLabels_nil_left, groupPts, saSpecAll, sameSideRuns]
-      · simp [FiberIn.pts, hb, andPts_nil_right, saLoop_nil_right, saSpec, mergeLabels_nil_right, groupPts, saSpecAll, sameSideRuns]
-    · have hce' : cleanEnd f.a f.b = true ∨ ((groupPts g).1 = [] ∧ (groupPts g).2 = []) := by
-        rcases hce with h | h
-        · exact Or.inl h
-        · right; rw [groupPts_nil_of g h]; exact ⟨rfl, rfl⟩
-      simp only [FiberIn.pts]
-      rw [saLoop_fiber f.pre f.a f.b _ _ none hF0 hF1 ha hb hce', ih', runsFrom_none, saSpec]
+    simp only [FiberIn.pts]
+    rw [saLoop_fiber f.pre f.a f.b _ _ none hF0 hF1 (fun _ _ => rfl), ih hdg, runsFrom_none, saSpec]
 
 end Ft
 
@@ -563,46 +547,20 @@ theorem group_rows_points (n : Nat) (g : List FiberIn) (h : ShapeOk n g) :
     simp only [groupRows, groupPts, List.flatMap_cons] at ih' ⊢
     exact ⟨mapM_append_some _ _ _ _ _ hf.1 ih'.1, mapM_append_some _ _ _ _ _ hf.2 ih'.2⟩
 
-/-- in a group whose inner fibers are clean both traces start in the same fiber -/
-theorem group_heads (g : List FiberIn) (hc : groupClean g = true) :
-    ∀ p0 r0 p1 r1, (groupPts g).1 = p0 :: r0 → (groupPts g).2 = p1 :: r1 → p0.dropLast = p1.dropLast := by
-  induction g with
-  | nil => intro p0 r0 p1 r1 h; simp [groupPts] at h
-  | cons f g ih =>
-    intro p0 r0 p1 r1 h0 h1
-    rw [groupPts_cons] at h0 h1
-    rcases group_head_cases f g hc with ⟨ha, hb⟩ | ⟨hab, hg⟩ | ⟨ha, hb, _⟩
-    · simp only [FiberIn.pts, ha, hb, andPts, P_nil, List.nil_append] at h0 h1
-      exact ih (groupClean_tail f g hc) p0 r0 p1 r1 h0 h1
-    · subst hg
-      rcases hab with ha | hb
-      · simp [FiberIn.pts, ha, andPts_nil_left, groupPts] at h0
-      · simp [FiberIn.pts, hb, andPts_nil_right, groupPts] at h1
-    · obtain ⟨x, ta, hxa⟩ := List.exists_cons_of_ne_nil ha
-      obtain ⟨y, tb, hyb⟩ := List.exists_cons_of_ne_nil hb
-      obtain ⟨t0, ht0⟩ := andPts_fst_cons x ta f.b
-      obtain ⟨t1, ht1⟩ := andPts_snd_cons f.a y tb
-      simp only [FiberIn.pts] at h0 h1
-      rw [hxa] at h0; rw [ht0] at h0
-      rw [hyb] at h1; rw [ht1] at h1
-      simp only [P_cons, List.cons_append, List.cons.injEq] at h0 h1
-      rw [← h0.1, ← h1.1, dropLast_snoc, dropLast_snoc]
-
-theorem startPts_group (n : Nat) (g : List FiberIn) (h : ShapeOk n g) (hc : groupClean g = true) :
+theorem startPts_group (n : Nat) (g : List FiberIn) (h : ShapeOk n g) :
     startPts n (groupRows g).1 (groupRows g).2 =
       some (match (groupPts g).1, (groupPts g).2 with
             | _ :: _, _ :: _ => some (groupPts g)
             | _, _ => none) := by
   obtain ⟨h0, h1⟩ := group_rows_points n g h
   simp only [startPts, h0, h1, Option.bind_eq_bind, Option.bind_some]
-  have hh := group_heads g hc
   cases hq0 : (groupPts g).1 with
   | nil => rfl
   | cons p0 r0 =>
     cases hq1 : (groupPts g).2 with
     | nil => rfl
     | cons p1 r1 =>
-      simp only [hh p0 r0 p1 r1 hq0 hq1, if_true]
+      simp only
       rw [← hq0, ← hq1]; rfl
 
 end Ft
@@ -612,11 +570,11 @@ namespace Ft
 /-! ### `addTraces` on the rows of a group, and successive calls -/
 
 theorem tfAdd_started (n : Nat) (g : List FiberIn) (s : IState) (hs : s.started = true)
-    (hn : s.numRanks = n) (h : ShapeOk n g) (hd : distinctPre g = true) (hc : groupClean g = true) :
+    (hn : s.numRanks = n) (h : ShapeOk n g) (hd : ascPre g = true) :
     tfAdd s (groupRows g).1 (groupRows g).2 = some { s with count := s.count + tfSpecAll g } := by
-  have hl := tfLoop_group g hd hc
+  have hl := tfLoop_group g hd
   simp only [tfAdd, hs, Bool.not_true, Bool.false_eq_true, if_false, Option.bind_eq_bind,
-    Option.bind_some, hn, startPts_group n g h hc]
+    Option.bind_some, hn, startPts_group n g h]
   cases hq0 : (groupPts g).1 with
   | nil =>
     rw [hq0, tfLoop_nil_left] at hl
@@ -636,11 +594,11 @@ theorem tfAdd_started (n : Nat) (g : List FiberIn) (s : IState) (hs : s.started 
       rw [this]
 
 theorem tfAdd_first (n : Nat) (g : List FiberIn) (s : IState) (hs : s.started = false)
-    (h : ShapeOk n g) (hd : distinctPre g = true) (hc : groupClean g = true) :
+    (h : ShapeOk n g) (hd : ascPre g = true) :
     tfAdd s (TRow.hdr (2 * n + 1) :: (groupRows g).1) (TRow.hdr (2 * n + 1) :: (groupRows g).2)
       = some { started := true, numRanks := n, count := s.count + tfSpecAll g } := by
   have hn : (2 * n + 1 - 1) / 2 = n := by omega
-  have := tfAdd_started n g { s with started := true, numRanks := n } rfl rfl h hd hc
+  have := tfAdd_started n g { s with started := true, numRanks := n } rfl rfl h hd
   simp only [tfAdd, hs, Bool.not_false, if_true, TRow.len, hn, List.drop_succ_cons, List.drop_zero,
     Option.bind_eq_bind, Option.bind_some] at this ⊢
   simpa [tfAdd] using this
@@ -650,10 +608,10 @@ end Ft
 namespace Ft
 
 theorem saAdd_started (n : Nat) (g : List FiberIn) (s : IState) (hs : s.started = true)
-    (hn : s.numRanks = n) (h : ShapeOk n g) (hd : distinctPre g = true) (hc : groupClean g = true) :
+    (hn : s.numRanks = n) (h : ShapeOk n g) (hd : ascPre g = true) :
     saAdd s (groupRows g).1 (groupRows g).2 = some { s with count := s.count + saSpecAll g } := by
-  have hl := saLoop_group g hd hc
-  simp only [saAdd, hs, Option.bind_eq_bind, hn, startPts_group n g h hc, Option.bind_some]
+  have hl := saLoop_group g hd
+  simp only [saAdd, hs, Option.bind_eq_bind, hn, startPts_group n g h, Option.bind_some]
   cases hq0 : (groupPts g).1 with
   | nil =>
     rw [hq0, saLoop_nil_left] at hl
@@ -673,18 +631,18 @@ theorem saAdd_started (n : Nat) (g : List FiberIn) (s : IState) (hs : s.started 
       rw [this]
 
 theorem saAdd_first (n : Nat) (g : List FiberIn) (s : IState) (hs : s.started = false)
-    (h : ShapeOk n g) (hd : distinctPre g = true) (hc : groupClean g = true) :
+    (h : ShapeOk n g) (hd : ascPre g = true) :
     saAdd s (TRow.hdr (2 * n + 1) :: (groupRows g).1) (TRow.hdr (2 * n + 1) :: (groupRows g).2)
       = some { started := true, numRanks := n, count := s.count + saSpecAll g } := by
   have hn : (2 * n + 1 - 1) / 2 = n := by omega
-  have := saAdd_started n g { s with started := true, numRanks := n } rfl rfl h hd hc
+  have := saAdd_started n g { s with started := true, numRanks := n } rfl rfl h hd
   simp only [saAdd, hs, TRow.len, hn, List.drop_succ_cons, List.drop_zero,
     Option.bind_eq_bind, Option.bind_some] at this ⊢
   simpa [saAdd] using this
 
 /-- hypotheses on a list of groups -/
 def GroupsOk (n : Nat) (groups : List (List FiberIn)) : Prop :=
-  ∀ g ∈ groups, ShapeOk n g ∧ distinctPre g = true ∧ groupClean g = true
+  ∀ g ∈ groups, ShapeOk n g ∧ ascPre g = true
 
 theorem tfSpecAll_append (g h : List FiberIn) : tfSpecAll (g ++ h) = tfSpecAll g + tfSpecAll h := by
   simp [tfSpecAll]
@@ -697,10 +655,10 @@ theorem feed2_tf_started (n : Nat) (groups : List (List FiberIn)) (s : IState) (
   induction groups generalizing s with
   | nil => simp [feed2, tfSpecAll]
   | cons g r ih =>
-    obtain ⟨h1, h2, h3⟩ := h g (List.mem_cons_self ..)
+    obtain ⟨h1, h2⟩ := h g (List.mem_cons_self ..)
     simp only [List.map_cons, feed2]
     rw [show groupRows g = ((groupRows g).1, (groupRows g).2) from rfl]
-    simp only [tfAdd_started n g s hs hn h1 h2 h3, Option.bind_some]
+    simp only [tfAdd_started n g s hs hn h1 h2, Option.bind_some]
     rw [ih { s with count := s.count + tfSpecAll g } hs hn (fun x hx => h x (List.mem_cons_of_mem _ hx))]
     simp [tfSpecAll_append, Int.add_assoc]
 
@@ -710,10 +668,10 @@ theorem feed2_sa_started (n : Nat) (groups : List (List FiberIn)) (s : IState) (
   induction groups generalizing s with
   | nil => simp [feed2, saSpecAll]
   | cons g r ih =>
-    obtain ⟨h1, h2, h3⟩ := h g (List.mem_cons_self ..)
+    obtain ⟨h1, h2⟩ := h g (List.mem_cons_self ..)
     simp only [List.map_cons, feed2]
     rw [show groupRows g = ((groupRows g).1, (groupRows g).2) from rfl]
-    simp only [saAdd_started n g s hs hn h1 h2 h3, Option.bind_some]
+    simp only [saAdd_started n g s hs hn h1 h2, Option.bind_some]
     rw [ih { s with count := s.count + saSpecAll g } hs hn (fun x hx => h x (List.mem_cons_of_mem _ hx))]
     simp [saSpecAll_append, Int.add_assoc]
 
@@ -722,9 +680,9 @@ theorem tfTotal_batches (n : Nat) (groups : List (List FiberIn)) (h : GroupsOk n
   cases groups with
   | nil => simp [tfTotal, batchesOf, feed2, tfSpecAll]
   | cons g r =>
-    obtain ⟨h1, h2, h3⟩ := h g (List.mem_cons_self ..)
+    obtain ⟨h1, h2⟩ := h g (List.mem_cons_self ..)
     simp only [tfTotal, batchesOf, List.map_cons, feed2]
-    rw [tfAdd_first n g {} rfl h1 h2 h3]
+    rw [tfAdd_first n g {} rfl h1 h2]
     simp only [Option.bind_some]
     rw [feed2_tf_started n r _ rfl rfl (fun x hx => h x (List.mem_cons_of_mem _ hx))]
     simp [tfSpecAll_append]
@@ -734,9 +692,9 @@ theorem saTotal_batches (n : Nat) (groups : List (List FiberIn)) (h : GroupsOk n
   cases groups with
   | nil => simp [saTotal, batchesOf, feed2, saSpecAll]
   | cons g r =>
-    obtain ⟨h1, h2, h3⟩ := h g (List.mem_cons_self ..)
+    obtain ⟨h1, h2⟩ := h g (List.mem_cons_self ..)
     simp only [saTotal, batchesOf, List.map_cons, feed2]
-    rw [saAdd_first n g {} rfl h1 h2 h3]
+    rw [saAdd_first n g {} rfl h1 h2]
     simp only [Option.bind_some]
     rw [feed2_sa_started n r _ rfl rfl (fun x hx => h x (List.mem_cons_of_mem _ hx))]
     simp [saSpecAll_append]
@@ -810,7 +768,7 @@ theorem singletons_ok (n : Nat) (fs : List FiberIn)
     GroupsOk n (fs.map (fun f => [f])) := by
   intro g hg
   obtain ⟨f, hf, rfl⟩ := List.mem_map.1 hg
-  refine ⟨?_, rfl, rfl⟩
+  refine ⟨?_, rfl⟩
   intro f' hf'
   rw [List.mem_singleton.1 hf']
   exact hshape f hf
